@@ -1433,6 +1433,12 @@ func (d *decoder[T]) swallow() {
 	d.d.nextValueBytes()
 }
 
+// readArrayStart reads the start of an array off the stream, returning its length.
+func (d *decoder[T]) readArrayStart() int {
+	halt.onerror(d.err)
+	return d.d.ReadArrayStart()
+}
+
 func (d *decoder[T]) nextValueBytes() []byte {
 	return d.d.nextValueBytes()
 }
